@@ -118,11 +118,22 @@ def cases(draw, tier="quick"):
             targets=("proton", "proton", "ZA"),
             grid_kw={"nmin": 4, "nmax": 6, "umin": 1.0, "umax": 3.5},
             n_points=(1, 3) if clause == "L2" else (1, 1),
+            schemes=("ZM-VFNS", "ZM-VFNS") + tuple(cards.SCHEMES) if clause == "L2" else tuple(cards.SCHEMES),
             x_classes=["interior", "node", "large"],
             q2range=(2.0, 1e4),
         )
     )
     th, meta = cfg["theory"], cfg["meta"]
+    pts = cfg["obs"]["observables"][meta["name"]]
+    if clause == "L2" and meta["scheme"] == "ZM-VFNS" and len(pts) >= 2:
+        # spread the points of one run over different nf regions
+        thr = [(th[m] * th[k]) ** 2 for m, k in (("mc", "kcThr"), ("mb", "kbThr"), ("mt", "ktThr"))]
+        edges = [2.0] + [t for t in thr if 2.0 < t < 1e4] + [1e4]
+        regions = [(lo, hi) for lo, hi in zip(edges[:-1], edges[1:]) if hi > lo * 1.05]
+        order = draw(st.permutations(range(len(regions))))
+        for p_, r_ in zip(pts, order):
+            lo, hi = regions[r_]
+            p_["Q2"] = float(f"{math.exp(draw(st.floats(math.log(lo * 1.01), math.log(hi * 0.99)))):.8g}")
     if meta["kind"] == "g1" and pto > 2:
         pto = 2
     th["PTO"] = meta["pto"] = pto
